@@ -423,7 +423,7 @@ def install(ex):
         a[0].get().items.extend(clone_val(x) for x in deref(a[1]).items)
         return UNIT
 
-    @M(r'^VecDeque::<.*>::drain::<RangeFrom<usize>>$')
+    @M(r'^VecDeque::<.*>::drain::<(std::ops::)?RangeFrom<usize>>$')
     def deque_drain_from(ex, c, a):
         l = a[0].get()
         start = a[1].f[0]
@@ -463,6 +463,105 @@ def install(ex):
         it = a[0]
         return IterV(it.lst, it.mode, it.pos, it.adapt + [('map', a[1])], it.end)
 
+    @M(r'^<.* as Iterator>::flat_map::<')
+    def iter_flat_map(ex, c, a):
+        it = a[0]
+        return IterV(it.lst, it.mode, it.pos, it.adapt + [('flatmap', a[1])], it.end)
+
+    @M(r'^<.* as Iterator>::eq::<')
+    def iter_eq(ex, c, a):
+        x, y = a[0], a[1]
+        acc = True
+        while True:
+            nx, ny = iter_next_val(ex, x), iter_next_val(ex, y)
+            if nx.variant == 0 or ny.variant == 0:
+                return b_and(acc, nx.variant == ny.variant)
+            acc = b_and(acc, ex.binop('Eq', deref(nx.f[0]), deref(ny.f[0]), False))
+            if acc is False:
+                return False
+
+    @M(r'^<.* as Iterator>::nth$')
+    def iter_nth(ex, c, a):
+        it = a[0].get() if isinstance(a[0], Ref) else a[0]
+        n = a[1]
+        k = n.v if n.conc else ex.concretize_int(n, list(range(0, 64)), 'nth')
+        r = none()
+        for _ in range(k + 1):
+            r = iter_next_val(ex, it)
+            if r.variant == 0:
+                return r
+        return r
+
+    @M(r'^Arc::<.*>::new$|^std::sync::Arc::<.*>::new$')
+    def arc_new(ex, c, a):
+        return Agg('Arc', {0: a[0]})
+
+    @M(r'^<Arc<.*> as Clone>::clone$')
+    def arc_clone(ex, c, a):
+        return deref(a[0])           # shared: the same object (immutability of the pointee is what the spec checks)
+
+    @M(r'^<Arc<.*> as Deref>::deref$')
+    def arc_deref(ex, c, a):
+        return Ref(deref(a[0]).f, 0)
+
+    @M(r'^<Vec<.*> as Index<std::ops::Range<usize>>>::index$|^<\[.*\] as Index<std::ops::Range<usize>>>::index$')
+    def index_range(ex, c, a):
+        l = deref(a[0])
+        r = a[1]
+        n = len(l.items)
+        s_ = r.f[0].v if r.f[0].conc else ex.concretize_int(r.f[0], list(range(n + 2)), 'slice start')
+        e_ = r.f[1].v if r.f[1].conc else ex.concretize_int(r.f[1], list(range(n + 2)), 'slice end')
+        if s_ > e_:
+            raise Panic('slice index starts after end', c)
+        if e_ > n:
+            raise Panic('range end index out of range for slice', c)
+        view = ListV('slice', l.items[s_:e_])
+        return Ref({'v': view}, 'v')
+
+    @M(r'^std::slice::<impl \[.*\]>::to_vec$|^core::slice::<impl \[.*\]>::to_vec$|^<\[.*\]>::to_vec$')
+    def slice_to_vec(ex, c, a):
+        return ListV('Vec', [clone_val(x) for x in deref(a[0]).items])
+
+    @M(r'^array::<impl \[.*; N\]>::as_slice$|^core::array::<impl \[.*\]>::as_slice$|^Vec::<.*>::as_slice$')
+    def as_slice(ex, c, a):
+        return a[0] if isinstance(a[0], Ref) else Ref({'v': a[0]}, 'v')
+
+    @M(r'^<\[u8\] as PartialEq>::eq$|^<Vec<u8> as PartialEq>::eq$')
+    def bytes_eq(ex, c, a):
+        x, y = deref(a[0]).items, deref(a[1]).items
+        if len(x) != len(y):
+            return False
+        return b_and(*[ex.binop('Eq', p, q, False) for p, q in zip(x, y)])
+
+    @M(r'^<std::ops::Range<usize> as ExactSizeIterator>::len$')
+    def range_len(ex, c, a):
+        r = deref(a[0])
+        lt = ex.binop('Lt', r.f[0], r.f[1], False)
+        return b_ite_int(lt, ex.binop('Sub', r.f[1], r.f[0], False), Int(64, 0))
+
+    @M(r'^std::ops::RangeInclusive::<usize>::(start|end)$')
+    def range_incl_field(ex, c, a):
+        r = deref(a[0])
+        return Ref(r.f, 0 if c.endswith('start') else 1)
+
+    @M(r'^std::ops::RangeInclusive::<usize>::new$')
+    def range_incl_new(ex, c, a):
+        return Agg('RangeInclusive', {0: a[0], 1: a[1], 2: False})
+
+    @M(r'^<usize as Sub<&usize>>::sub$|^<&usize as Sub<usize>>::sub$|^<&usize as Sub<&usize>>::sub$')
+    def usize_sub_ref(ex, c, a):
+        r = ex.binop('SubWithOverflow', deref(a[0]), deref(a[1]), False)
+        if ex.concretize_bool(r.f[1]):
+            raise Panic('attempt to subtract with overflow', c)
+        return r.f[0]
+
+    @M(r'^<&usize as Add<usize>>::add$|^<usize as Add<&usize>>::add$|^<&usize as Add<&usize>>::add$')
+    def usize_add_ref(ex, c, a):
+        r = ex.binop('AddWithOverflow', deref(a[0]), deref(a[1]), False)
+        if ex.concretize_bool(r.f[1]):
+            raise Panic('attempt to add with overflow', c)
+        return r.f[0]
+
     @M(r'^<.* as Iterator>::(cloned|copied)::<|^<.* as Iterator>::(cloned|copied)$')
     def iter_cloned(ex, c, a):
         it = a[0]
@@ -484,6 +583,8 @@ def install(ex):
     def iter_next(ex, c, a):
         it = a[0].get()
         if not isinstance(it, IterV):
+            if isinstance(it, Agg) and it.ty == 'Range':
+                return _range_next(ex, it)
             if hasattr(it, 'mirx_next'):
                 return it.mirx_next(ex)
             raise Unsupported('next on ' + repr(it)[:60])
@@ -527,7 +628,7 @@ def install(ex):
         it = a[0].get() if isinstance(a[0], Ref) else a[0]
         is_all = '::all::<' in c
         while True:
-            nx = iter_next_val(ex, it)
+            nx = _range_next(ex, it) if (isinstance(it, Agg) and it.ty == 'Range') else iter_next_val(ex, it)
             if nx.variant == 0:
                 return is_all
             r = ex.concretize_bool(ex.call_closure(a[1], [nx.f[0]]))
@@ -544,6 +645,181 @@ def install(ex):
             if nx.variant == 0:
                 return UNIT
             ex.call_closure(a[1], [nx.f[0]])
+
+    # ------------------------------------------------------------------ HashMap / FxHashMap: finite map by structural key equality
+    def key_eq(ex, k1, k2):
+        if isinstance(k1, Agg):
+            acc = True
+            if k1.variant != k2.variant and not (isinstance(k1.variant, Int) or isinstance(k2.variant, Int)):
+                return False
+            for f in k1.f:
+                acc = b_and(acc, key_eq(ex, k1.f[f], k2.f[f]))
+            return acc
+        if isinstance(k1, ListV):
+            if len(k1.items) != len(k2.items):
+                return False
+            return b_and(*[key_eq(ex, x, y) for x, y in zip(k1.items, k2.items)])
+        if isinstance(k1, (Int, bool)) or z3.is_expr(k1):
+            return ex.binop('Eq', k1, k2, False)
+        raise Unsupported('map key component ' + repr(k1)[:40])
+
+    def map_find(ex, m, key):
+        for i, (k, v) in enumerate(m.items):
+            if ex.concretize_bool(key_eq(ex, k, key)):
+                return i
+        return None
+
+    @M(r'^<(std::collections::)?HashMap<.*> as Default>::default$|^HashMap::<.*>::new$|^HashMap::<.*>::default$')
+    def hashmap_new(ex, c, a):
+        return MapV('HashMap', [])
+
+    @M(r'^HashMap::<.*>::entry$')
+    def hashmap_entry(ex, c, a):
+        # entries keep the &mut map (a Ref, never deep-copied by `copy` operands), not the map value itself
+        m = a[0].get()
+        i = map_find(ex, m, a[1])
+        if i is None:
+            return Agg('Entry', {0: Agg('VacantEntry', {0: a[0], 1: a[1]})}, 1)
+        return Agg('Entry', {0: Agg('OccupiedEntry', {0: a[0], 1: i})}, 0)
+
+    @M(r'^(std::collections::hash_map::)?Entry::<.*>::or_insert$')
+    def entry_or_insert(ex, c, a):
+        e = a[0]
+        inner = e.f[0]
+        m = inner.f[0].get()
+        if e.variant == 0:
+            return Ref(_PairRef(m.items, inner.f[1]), 1)
+        m.items.append((inner.f[1], a[1]))
+        return Ref(_PairRef(m.items, len(m.items) - 1), 1)
+
+    @M(r'^(std::collections::hash_map::)?OccupiedEntry::<.*>::(get|get_mut)$')
+    def occupied_get(ex, c, a):
+        inner = deref(a[0])
+        return Ref(_PairRef(inner.f[0].get().items, inner.f[1]), 1)
+
+    @M(r'^(std::collections::hash_map::)?OccupiedEntry::<.*>::remove_entry$')
+    def occupied_remove_entry(ex, c, a):
+        inner = a[0]
+        k, v = inner.f[0].get().items.pop(inner.f[1])
+        return Agg('tuple', {0: k, 1: v})
+
+    @M(r'^(std::collections::hash_map::)?OccupiedEntry::<.*>::remove$')
+    def occupied_remove(ex, c, a):
+        inner = a[0]
+        k, v = inner.f[0].get().items.pop(inner.f[1])
+        return v
+
+    @M(r'^HashMap::<.*>::remove::<')
+    def hashmap_remove(ex, c, a):
+        m = a[0].get()
+        i = map_find(ex, m, deref(a[1]))
+        if i is None:
+            return none()
+        k, v = m.items.pop(i)
+        return some(v)
+
+    @M(r'^HashMap::<.*>::(get|get_mut)::<')
+    def hashmap_get(ex, c, a):
+        m = deref(a[0])
+        i = map_find(ex, m, deref(a[1]))
+        if i is None:
+            return none()
+        return some(Ref(_PairRef(m.items, i), 1))
+
+    @M(r'^HashMap::<.*>::insert$')
+    def hashmap_insert(ex, c, a):
+        m = a[0].get()
+        i = map_find(ex, m, a[1])
+        if i is None:
+            m.items.append((a[1], a[2]))
+            return none()
+        old = m.items[i][1]
+        m.items[i] = (m.items[i][0], a[2])
+        return some(old)
+
+    @M(r'^HashMap::<.*>::contains_key::<')
+    def hashmap_contains(ex, c, a):
+        return map_find(ex, deref(a[0]), deref(a[1])) is not None
+
+    @M(r'^HashMap::<.*>::len$')
+    def hashmap_len(ex, c, a):
+        return Int(64, len(deref(a[0]).items))
+
+    # ------------------------------------------------------------------ integer ranges as iterators
+    @M(r'^<std::ops::Range<u(\d+|size)> as IntoIterator>::into_iter$')
+    def range_into_iter(ex, c, a):
+        return a[0]
+
+    @M(r'^<std::ops::Range<u(\d+|size)> as Iterator>::next$')
+    def range_next(ex, c, a):
+        r = a[0].get()
+        lt = ex.binop('Lt', r.f[0], r.f[1], False)
+        if ex.concretize_bool(lt):
+            cur = r.f[0]
+            r.f[0] = ex.binop('Add', cur, Int(cur.w, 1), False)
+            return some(cur)
+        return none()
+
+    @M(r'^<std::ops::Range<u(\d+|size)> as Iterator>::(all|any)::<')
+    def range_all(ex, c, a):
+        r = a[0].get() if isinstance(a[0], Ref) else a[0]
+        is_all = '::all::<' in c
+        n = 0
+        while True:
+            lt = ex.binop('Lt', r.f[0], r.f[1], False)
+            if not ex.concretize_bool(lt):
+                return is_all
+            cur = r.f[0]
+            r.f[0] = ex.binop('Add', cur, Int(cur.w, 1), False)
+            res = ex.concretize_bool(ex.call_closure(a[1], [cur]))
+            if is_all and not res:
+                return False
+            if not is_all and res:
+                return True
+            n += 1
+            if n > 4096:
+                raise Unsupported('range loop bound')
+
+    @M(r'^Vec::<.*>::resize$')
+    def vec_resize(ex, c, a):
+        l = a[0].get()
+        n = a[1].v if a[1].conc else ex.concretize_int(a[1], list(range(0, 130)), 'resize length')
+        if n < len(l.items):
+            del l.items[n:]
+        else:
+            l.items.extend(clone_val(a[2]) for _ in range(n - len(l.items)))
+        return UNIT
+
+    @M(r'^<Vec<.*> as (IndexMut|Index)<usize>>::(index_mut|index)$')
+    def vec_index(ex, c, a):
+        l = deref(a[0])
+        i = a[1]
+        k = i.v if i.conc else ex.concretize_int(i, list(range(len(l.items) + 1)), 'index')
+        if k >= len(l.items):
+            raise Panic('index out of bounds', c)
+        return Ref(l.items, k)
+
+    @M(r'^<Vec<.*> as Deref>::deref$|^<Vec<.*> as DerefMut>::deref_mut$')
+    def vec_deref(ex, c, a):
+        return a[0]
+
+    @M(r'^<&?u(\d+|size) as (Shr|Shl)<&?u(\d+|size)>>::(shr|shl)$')
+    def ref_shift(ex, c, a):
+        x, y = deref(a[0]), deref(a[1])
+        # debug-profile semantics: shifting by >= width panics (overflow check)
+        over = ex.binop('Ge', ex.cast(y, 'u64', 'IntToInt'), Int(64, x.w), False)
+        if ex.concretize_bool(over):
+            raise Panic('attempt to shift with overflow', c)
+        return ex.binop('Shr' if c.endswith('shr') else 'Shl', x, y, False)
+
+    @M(r'^<&?u(\d+|size) as (BitAnd|BitOr|BitXor)<&?u(\d+|size)>>::(bitand|bitor|bitxor)$')
+    def ref_bitop(ex, c, a):
+        op = {'bitand': 'BitAnd', 'bitor': 'BitOr', 'bitxor': 'BitXor'}[c.split('::')[-1]]
+        return ex.binop(op, deref(a[0]), deref(a[1]), False)
+
+    @M(r'^<(u\d+|usize) as Ord>::max$')
+    def umax2(ex, c, a):
+        return b_ite_int(ex.binop('Ge', a[0], a[1], False), a[0], a[1])
 
     # ------------------------------------------------------------------ BinaryHeap (the std algorithm, element order = crate's Ord::cmp MIR)
     def heap_le(ex, c, x, y):
@@ -700,6 +976,30 @@ def install(ex):
         return Opaque('fmt')
 
 
+class _PairRef:
+    """mutable view of an association-list entry: index 0 = key, 1 = value"""
+
+    def __init__(self, items, i):
+        self.items, self.i = items, i
+
+    def __getitem__(self, k):
+        return self.items[self.i][k]
+
+    def __setitem__(self, k, v):
+        e = list(self.items[self.i])
+        e[k] = v
+        self.items[self.i] = tuple(e)
+
+
+def _range_next(ex, r):
+    lt = ex.binop('Lt', r.f[0], r.f[1], False)
+    if ex.concretize_bool(lt):
+        cur = r.f[0]
+        r.f[0] = ex.binop('Add', cur, Int(cur.w, 1), False)
+        return some(cur)
+    return none()
+
+
 def _fn_item_name(what):
     # "fn(u32) -> Ipv4Address {<Ipv4Address as From<u32>>::from}"
     m = re.search(r'\{(.*)\}$', what)
@@ -726,6 +1026,35 @@ def clone_elem(ex, x, c):
 
 def iter_next_val(ex, it):
     """advance IterV, apply adaptors; returns Option Agg"""
+    fm = None
+    for j, ad in enumerate(it.adapt):
+        if ad[0] == 'flatmap':
+            fm = j
+            break
+    if fm is not None:
+        outer_adapt, closure, rest = it.adapt[:fm], it.adapt[fm][1], it.adapt[fm + 1:]
+        while True:
+            if it.inner is None:
+                saved = it.adapt
+                it.adapt = outer_adapt
+                nx = iter_next_val(ex, it)
+                it.adapt = saved
+                if nx.variant == 0:
+                    return none()
+                it.inner = ex.call_closure(closure, [nx.f[0]])
+                if not isinstance(it.inner, IterV):
+                    raise Unsupported('flat_map closure did not return an iterator model')
+            v = iter_next_val(ex, it.inner)
+            if v.variant == 0:
+                it.inner = None
+                continue
+            v = v.f[0]
+            for ad in rest:
+                if ad[0] == 'map':
+                    v = ex.call_closure(ad[1], [v])
+                elif ad[0] == 'cloned':
+                    v = clone_val(deref(v))
+            return some(v)
     idx = None
     for ad in it.adapt:
         if ad[0] == 'revidx':
